@@ -142,10 +142,12 @@ func run(cfgText string, tweak func(*config.Config), withRemoved bool) ([]item, 
 	return out, ""
 }
 
-var (
-	baseline    []item
-	baselineErr string
-)
+type baselineT struct {
+	items []item
+	err   string
+}
+
+var baselines = map[string]baselineT{}
 
 var baseCfg = promBlock + fixtures.OfflineConfig(false) + onlineRuleBlock
 
@@ -165,6 +167,14 @@ func filter(items []item, keep func(item) bool) (out []string) {
 }
 
 func body(c *explore.Chooser) *explore.Case {
+	// optional rule{enable=[M]} block in the base config: it may only override checks{disabled}, never
+	// widen --enabled / checks{enabled}
+	enableBlocks := []string{"", "promql/aggregate", "rule/label", "promql/regexp", "promql/series"}
+	eb := c.Free(len(enableBlocks), "rule-enable-block")
+	baseCfg := baseCfg
+	if eb > 0 {
+		baseCfg += "\nrule {\n  enable = [\"" + enableBlocks[eb] + "\"]\n}\n"
+	}
 	mech := c.Free(len(mechanisms), "mechanism")
 	names := checks.CheckNames
 	var n1, n2 string
@@ -188,11 +198,12 @@ func body(c *explore.Chooser) *explore.Case {
 		list = append(list, n2)
 	}
 	quoted := `"` + strings.Join(list, `", "`) + `"`
-	if baseline == nil {
-		baseline, baselineErr = run(baseCfg, nil, true)
+	if _, ok := baselines[baseCfg]; !ok {
+		b, e := run(baseCfg, nil, true)
+		baselines[baseCfg] = baselineT{b, e}
 	}
-	before, herr := baseline, baselineErr
-	input := map[string]any{"mechanism": mechanisms[mech], "names": list}
+	before, herr := baselines[baseCfg].items, baselines[baseCfg].err
+	input := map[string]any{"mechanism": mechanisms[mech], "names": list, "rule_enable_block": enableBlocks[eb]}
 	cs := &explore.Case{Input: input, Outcome: mechanisms[mech]}
 	if herr != "" {
 		cs.Violate("harness:"+herr, herr, nil)
@@ -201,13 +212,15 @@ func body(c *explore.Chooser) *explore.Case {
 	var after []item
 	var wantKeep func(item) bool
 	inList := func(r string) bool { return r == n1 || (pair && r == n2) }
+	// documented: rule{enable=[M]} re-enables M for matching rules even if it is disabled globally
+	reEnabled := func(r string) bool { return eb > 0 && r == enableBlocks[eb] }
 	switch mechanisms[mech] {
 	case "checks{disabled}":
 		after, herr = run(baseCfg+"\nchecks {\n  disabled = ["+quoted+"]\n}\n", nil, true)
-		wantKeep = func(it item) bool { return !inList(it.Reporter) }
+		wantKeep = func(it item) bool { return !inList(it.Reporter) || reEnabled(it.Reporter) }
 	case "--disabled":
 		after, herr = run(baseCfg, func(cfg *config.Config) { cfg.SetDisabledChecks(list) }, true)
-		wantKeep = func(it item) bool { return !inList(it.Reporter) }
+		wantKeep = func(it item) bool { return !inList(it.Reporter) || reEnabled(it.Reporter) }
 	case "rule{disable}":
 		after, herr = run(baseCfg+"\nrule {\n  disable = ["+quoted+"]\n}\n", nil, true)
 		wantKeep = func(it item) bool { return !inList(it.Reporter) }
@@ -220,14 +233,14 @@ func body(c *explore.Chooser) *explore.Case {
 	case "--disabled regexp":
 		re := regexp.MustCompile("^" + n1 + "$")
 		after, herr = run(baseCfg, func(cfg *config.Config) { cfg.SetDisabledChecks([]string{n1}) }, true)
-		wantKeep = func(it item) bool { return !re.MatchString(it.Reporter) }
+		wantKeep = func(it item) bool { return !re.MatchString(it.Reporter) || reEnabled(it.Reporter) }
 	case "--offline":
 		after, herr = run(baseCfg, func(cfg *config.Config) { cfg.DisableOnlineChecks() }, true)
 		online := map[string]bool{}
 		for _, n := range checks.OnlineChecks {
 			online[n] = true
 		}
-		wantKeep = func(it item) bool { return !online[it.Reporter] }
+		wantKeep = func(it item) bool { return !online[it.Reporter] || reEnabled(it.Reporter) }
 	case "rule{enable} vs checks{disabled}":
 		// a rule{enable=[N]} block re-enables N for matching rules even when it is globally disabled:
 		// then nothing changes for N
